@@ -150,7 +150,7 @@ def finished_before_crash(incs, obs, h, x):
 # ---- oracle for the network workload (family crash) -------------------------------------
 
 def crash_oracle(case, obs):
-    out = []
+    out = FC.bg_panic_oracle(case, obs)
     evs = obs["evs"]
     tick = case["cfg"]["tick_ms"] * MS
     lat = case["cfg"]["lat_ms"] * MS
@@ -484,8 +484,11 @@ def crash_oracle(case, obs):
             diff = next((i for i, (a, b) in enumerate(zip(mine, twin)) if a != b), min(len(mine), len(twin)))
             out.append(("the uninvolved pair n2/n3 behaved differently from the crash-free twin run from record %d on: %s vs %s" % (
                 diff, mine[diff:diff + 1], twin[diff:diff + 1]), None))
+    scripted = {x[6] for x in log if x[2] == "bgp" and x[3] == "panic"} if case["cfg"].get("bg_panic") else set()
     for k, e in enumerate(evs):
         if e["k"] == "step" and not e["r"].startswith("ok"):
+            if k in scripted and e["r"].startswith("panic:") and "LocalSet is configured to shutdown on unhandled panic" in e["r"]:
+                continue        # the scripted background panic of family bg-panic, surfaced as it must be
             out.append(("event %d: step returned %s" % (k, e["r"]), None))
     return out
 
@@ -666,6 +669,7 @@ class Spec(PropSpec):
         net += rng.sample(rcp, 100) if quick else rcp
         mcp = FC.multicast_points()
         net += rng.sample(mcp, 110) if quick else mcp
+        net += FC.bg_panic_points()
         net += [FC.gen_random(rng) for _ in range(60 if quick else 800)]
         return core + net
 
